@@ -44,3 +44,59 @@ ptm_node_matcher = FunctionContract(
 )
 CONTRACTS = [ptm_node_matcher]
 LEMMAS = []
+
+
+# ------------------------------------------------------------------ _cover_graph: the recursive cover of unexplained atoms
+GNode, Match, Glet = TKey('GNode'), TKey('Match'), TKey('Graphlet')
+Frag = TTuple(Glet, TKey('Matcher'))
+Cov = TTuple(Glet, Match)
+
+
+def setup_cg(cx):
+    eng = cx.eng
+    from pyvc.values import IterV
+    from pyvc.builtins import _int
+    gnodes = cx.val('gnodes', TSeq(GNode))                 # iteration over the residue graph
+    cx.spec_env['gnodes'] = gnodes
+    is_ptm = cx.uf('is_ptm', [GNode], TBool)               # graph.nodes[n].get('PTM_atom', False)
+    matches_of = cx.uf('matches_of', [TKey('Matcher')], TSeq(Match))   # list(matcher.subgraph_isomorphisms_iter())
+    keys_of = cx.uf('keys_of', [Match], TSet(GNode))       # set(match.keys()): the atoms the placement covers
+    m_ = z3.Const('mm', TKey('Matcher').sort())
+    cx.assume(z3.ForAll([m_], TSeq(Match).len(matches_of(m_)) >= 0))
+    graph = Obj('Graph')
+    graph.__dict__['iter'] = gnodes
+    graph.attrs['nodes'] = Obj('NodeView', __getitem__=Builtin(
+        lambda e, n: Obj('attrs', get=Builtin(lambda e2, k, d=None: wrap(TBool, is_ptm(to_z3(n, GNode))) if (k == 'PTM_atom' and d is False) else
+                                              (_ for _ in ()).throw(EngineError('node.get(%r)' % (k,))), 'get')), 'graph.nodes[]'))
+    eng.methods[('Matcher', 'subgraph_isomorphisms_iter')] = lambda e, m: SV(TSeq(Match), matches_of(to_z3(m, TKey('Matcher'))))
+    eng.methods[('Match', 'keys')] = lambda e, m: Box(TSet(GNode), keys_of(to_z3(m, Match)))
+    return dict(graph=graph, to_cover=cx.val('to_cover', TSet(GNode)), fragments=cx.val('fragments', TSeq(Frag)))
+
+
+SPEC_CG = {
+    'covers': "lambda c, x: x in keys_of(c[1])",
+}
+cover_graph = FunctionContract(
+    F, '_cover_graph', 'C14', setup=setup_cg, spec_defs=SPEC_CG, spec_env=dict(GNode=GNode, Match=Match, Glet=Glet),
+    result_ty=TSeq(Cov),
+    allow_exc=('KeyError',),           # 'Could not identify PTM': when no cover is found (completeness of the search: not stated)
+    ensures=[
+        # every atom that has to be explained is covered by one of the returned placements ...
+        "forall(lambda x: implies(x in to_cover, exists(lambda j: 0 <= j and j < len(result) and covers(result[j], x))), GNode)",
+        # ... an unrecognised atom by exactly one of them ...
+        "forall(lambda x, j, k: implies(x in to_cover and is_ptm(x) and 0 <= j and j < k and k < len(result), "
+        "   not (covers(result[j], x) and covers(result[k], x))), GNode, TInt, TInt)",
+        # ... which touch nothing but atoms to be explained and recognised atoms,
+        "forall(lambda x, j: implies(0 <= j and j < len(result) and covers(result[j], x), x in to_cover or not is_ptm(x)), GNode, TInt)",
+        # ... and each is a placement that its own template's matcher produced
+        "forall(lambda j: implies(0 <= j and j < len(result), exists(lambda i, q: 0 <= i and i < len(fragments) and "
+        "   result[j][0] == fragments[i][0] and 0 <= q and q < len(matches_of(fragments[i][1])) and "
+        "   result[j][1] == matches_of(fragments[i][1])[q])))",
+    ],
+    loops={'L1': LoopSpec(inv=[], modifies=[]), 'L1.1': LoopSpec(inv=[], modifies=[])},
+    canary=[("rest_cover = _cover_graph(graph, to_cover - matching, fragments[idx:])", "rest_cover = _cover_graph(graph, to_cover, fragments[idx:])"),
+            ("if matching <= available:", "if True:"),
+            ("return [(graphlet, match)] + rest_cover", "return rest_cover")],
+)
+cover_graph.recursive = True
+CONTRACTS.append(cover_graph)
